@@ -8,7 +8,7 @@ MISS=0
 for D in seeded/* mutants/*; do
   [ -f "$D/patch.diff" ] || continue
   PROP=$(python3 -c "import json,sys; m=json.load(open('$D/meta.json')); print(m.get('check') or m['property'])")
-  EXPECT=$(python3 -c "import json,sys; m=json.load(open('$D/meta.json')); s=m.get('status','caught'); print('caught' if s.startswith('caught') else 'missed')")
+  EXPECT=$(python3 -c "import json; m=json.load(open('$D/meta.json')); s=m.get('status','caught'); print('caught' if s.startswith('caught') else 'missed')")
   case "$D" in seeded/C02-header-wholefile-wrong-base) PROP=C11;; esac
   WT=$(mktemp -d /tmp/sm.XXXXXX); rmdir "$WT"
   git -C /repo worktree add -q --detach "$WT" HEAD || { echo "$D: worktree failed"; continue; }
